@@ -202,6 +202,8 @@ impl Report {
     }
     /// record a violation; writes the replay file; at most 5 are kept
     pub fn violation(&mut self, kind: &str, what: &str, replay_body: &str) {
+        let short: String = if what.chars().count() > 900 { what.chars().take(900).collect::<String>() + " …" } else { what.to_string() };
+        let what = short.as_str();
         if self.violations.len() >= 5 {
             self.count("violations_not_listed");
             return;
